@@ -128,6 +128,8 @@ type Driver struct {
 	aborted   bool
 	funcsSeen map[string]bool
 	buildMu   sync.Mutex
+	start     time.Time
+	budget    time.Duration
 }
 
 type JobAgg struct {
@@ -350,6 +352,9 @@ func (d *Driver) take() (workItem, bool) {
 	d.mu.Lock()
 	defer d.mu.Unlock()
 	for {
+		if d.aborted {
+			d.queue = nil
+		}
 		if len(d.queue) > 0 {
 			it := d.queue[0]
 			d.queue = d.queue[1:]
@@ -383,6 +388,13 @@ func (d *Driver) worker(id int) {
 		}
 		local := []workItem{it}
 		for len(local) > 0 {
+			if d.budget > 0 && time.Since(d.start) > d.budget {
+				d.mu.Lock()
+				d.aborted = true
+				d.mu.Unlock()
+				local = nil
+				break
+			}
 			w := local[len(local)-1]
 			local = local[:len(local)-1]
 			if len(tc.tab) > 400000 {
